@@ -54,14 +54,14 @@ func splitURL(url string) []urlPart {
 func validateURL(url string) error {
 	splitURL := splitURL(url)
 
-	for _, urlPart := range splitURL {
+	for index, urlPart := range splitURL {
 		if urlPart.Value == "" {
 			return fmt.Errorf(
 				"URL %v is invalid, URL part cannot be empty",
 				url,
 			)
 		}
-		if urlPart.Value == wildcard && urlPart != splitURL[len(splitURL)-1] {
+		if urlPart.Value == wildcard && index != len(splitURL)-1 {
 			return fmt.Errorf("URL %v is invalid, "+
 				"wildcard is only allowed at the end of a URL", url)
 		}
